@@ -636,7 +636,7 @@ func (g *G) numOp(c *Ctx, d int) string {
 		return g.pick("todate", "gmtime", "gmtime | mktime", "strftime(\"%Y-%m-%dT%H:%M:%SZ\")", "strftime(\"%A, %B %d, %Y\")", "gmtime | todate?", "todate | fromdate")
 	case 13:
 		g.feat("until")
-		return g.pick("[., 0] | until(.[1] >= 3; [.[0], .[1] + 1]) | .[0]", "[limit(4; repeat(. * 2))]", "[while(length < 3; . * 2)]?", "[limit(3; while(true; . + 1))]", "[., 1] | until(.[1] > 5; .[1] += 2)")
+		return g.pick("[., 0] | until(.[1] >= 3; [.[0], .[1] + 1]) | .[0]", "[limit(4; repeat(. * 2))]", "[limit(5; while(length < 3; . * 2))]?", "[limit(3; while(true; . + 1))]", "[., 1] | until(.[1] > 5; .[1] += 2)")
 	case 14:
 		return ". as $n | " + g.expr(c.withVar("n", c.dot, c.dotOK), "any", d-1)
 	case 15:
@@ -776,7 +776,7 @@ func (g *G) arrOp(c *Ctx, a []any, d int) string {
 			"[.[] as [$a, $b] ?// {k: $a, v: $b} ?// $a | [$a, $b]]",
 			"[.[] as {k: $a} ?// [$a] | $a]",
 			"[.[] as [$a] ?// $a | $a | tostring]",
-			"[.[] as {v: $a, t: $b} ?// [$a, $b] ?// $a | {a: $a, b: $b}]",
+			"[.[] as {v: $a, t: $b} ?// [$a, $b] ?// $a | {a: $a, b: $b}]", // every variable occurs in the FIRST alternative: gojq leaves later ones uninitialised
 			". as [$a] ?// {a: $a} ?// $a | [$a]",
 			"[.[] as [$a] ?// $a | if ($a | type) == \"array\" then error(\"arr\") else $a end]",
 		)
